@@ -15,9 +15,11 @@ MC_Configs == CASE Which = "C01" -> IF Thorough THEN AllFlagCfgs({<<127>>, <<96,
                                     ELSE FewFlagCfgs({<<63, 105, 127>>}) \cup {Cfg(FALSE, TRUE, FALSE, TRUE, <<127>>)}
                 [] Which = "C02" -> AllFlagCfgs(IF Thorough THEN {<<127>>, <<96, 127>>, <<63, 105, 127>>} ELSE {<<96, 127>>})
                 [] Which = "C19" -> {Cfg(TRUE, TRUE, TRUE, TRUE, <<96, 127>>), Cfg(TRUE, FALSE, FALSE, FALSE, <<96, 127>>)}
-                [] OTHER -> FewFlagCfgs({<<96, 127>>})
+                [] OTHER -> IF Thorough THEN FewFlagCfgs({<<96, 127>>})
+                            ELSE {Cfg(TRUE, TRUE, TRUE, TRUE, <<96, 127>>), Cfg(TRUE, FALSE, FALSE, FALSE, <<96, 127>>)}
 
-SigPlans == {<<>>, <<<<0, 3, 4>>>>, <<<<0, 2, 4>>, <<48, 6, 8>>>>, <<<<96, 3, 4>>>>}
+(* 2/8 gives bars of 24 ticks, which a 24-tick note starting on the bar line fills exactly *)
+SigPlans == {<<>>, <<<<0, 3, 4>>>>, <<<<0, 2, 4>>, <<48, 6, 8>>>>, <<<<96, 3, 4>>>>, <<<<0, 2, 8>>>>}
 NoteCandsT == {[trk |-> t, p |-> pv[1], v |-> pv[2], s |-> s, e |-> s + l] :
                   t \in {0, 1}, pv \in {<<60, 40>>, <<61, 100>>}, s \in {0, 44, 72, 100}, l \in {6, 24}}
 NoClash(N) == \A a, b \in N : (a # b /\ a.trk = b.trk /\ a.p = b.p) => (a.e <= b.s \/ b.e <= a.s)
